@@ -18,7 +18,8 @@ int main(int argc, char** argv) {
     int32_t as = s < 0 ? -s : s;
     if (p.hour() != as / 3600 || p.minute() != as % 3600 / 60 || p.second() != as % 60) bad("fields");
     if ((s < 0) != (p.sign() < 0) && s != 0) bad("sign");
-    for (int32_t o : {s - 1, s + 1, -s, s}) {
+    // neighbours, the negation, and values whose difference from s is next to 2^15 / 2^16 (16-bit difference arithmetic)
+    for (int32_t o : {s - 1, s + 1, -s, s, s - 32767, s - 32768, s - 32769, s - 32780, s + 32767, s + 32768, s + 32769, s + 32780, s - 65535, s - 65536, s - 65537, s + 65535, s + 65536, s + 65537, s - 921600, s + 921600}) {
       if (o < -921599 || o > 921599) continue;
       TimePeriod q(o); int want = s < o ? -1 : (s > o ? 1 : 0);
       if (p.compareTo(q) != want) bad("compareTo");
